@@ -47,10 +47,7 @@ Theorem C14_len_any : forall d its, enc_descriptor d = Ok its -> items_bytes_ok 
     bytes_of_items its = [Descriptor_Tag d mod 256; calc_descriptor_length d mod 256] ++ body /\
     calc_descriptor_length d = desc_size d mod 256 /\
     zlen body = (if desc_size d mod 256 =? 0 then 0 else desc_size d).
-Proof.
-  intros d its H Hok. destruct (enc_descriptor_bytes d its H Hok) as (body & E & Hl & _).
-  destruct (emitted_wrap d) as [Ec Ee]. exists body. rewrite <- Ee. auto.
-Qed.
+Proof. exact descriptor_any_len. Qed.
 Print Assumptions C14_len_any.
 
 (* a 256-byte body announces 0 and writes nothing; a 300-byte body announces 44 and writes 300 bytes *)
@@ -249,3 +246,48 @@ Example C14_rt_example :
   exists out, enc_descriptors_with_length [d] = Ok out /\ items_bytes_ok out /\
               bytes_of_items out = [240; 3; 82; 1; 200].
 Proof. eexists. split; [vm_compute; reflexivity|]. split; [repeat constructor|reflexivity]. Qed.
+
+(* (d) writing yields the reference encoding.  writeDescriptor emits tag, size, body (any tag, any value whose body
+   is 1..255 bytes); the bodies of the byte-aligned tags are the layouts of Spec/DescSpec.v (EN 300 468 6.2,
+   ISO/IEC 13818-1 2.6).  The remaining tags (bit-packed: AC-3, Enhanced AC-3, AVC, component, extended event,
+   extension, local time offset, maximum bitrate, teletext, VBI) are compared with the independent Go reference
+   encoder by the implementation-side oracle on every run. *)
+Theorem C14_write_descriptor : forall d bi, enc_descriptor_body d = Ok bi -> items_bytes_ok bi ->
+  0 <= Descriptor_Tag d < 256 -> 0 < desc_size d < 256 ->
+  res_map bytes_of_items (enc_descriptor d) = Ok ([Descriptor_Tag d; desc_size d] ++ bytes_of_items bi).
+Proof. exact write_descriptor_bytes. Qed.
+Print Assumptions C14_write_descriptor.
+
+Theorem C14_write_bodies :
+  (forall v, byte_range (DescriptorStreamIdentifier_ComponentTag v) -> bytes_of_items (enc_stream_identifier v) = ref_stream_identifier v) /\
+  (forall v, byte_range (DescriptorDataStreamAlignment_Type v) -> bytes_of_items (enc_data_stream_alignment v) = ref_data_stream_alignment v) /\
+  (forall v, bytes_ok (DescriptorRegistration_AdditionalIdentificationInfo v) -> bytes_of_items (enc_registration v) = ref_registration v) /\
+  (forall v, bytes_of_items (enc_private_data_indicator v) = ref_private_data_indicator v) /\
+  (forall v, bytes_of_items (enc_private_data_specifier v) = ref_private_data_specifier v) /\
+  (forall v, length (DescriptorISO639LanguageAndAudioType_Language v) = 3%nat -> bytes_ok (DescriptorISO639LanguageAndAudioType_Language v) ->
+             byte_range (DescriptorISO639LanguageAndAudioType_Type v) -> bytes_of_items (enc_iso639 v) = ref_iso639 v) /\
+  (forall v, bytes_ok (DescriptorNetworkName_Name v) -> bytes_of_items (enc_network_name v) = ref_network_name v) /\
+  (forall v, bytes_ok (DescriptorUnknown_Content v) -> bytes_of_items (enc_unknown v) = ref_unknown v) /\
+  (forall v, byte_range (DescriptorService_Type v) -> bytes_ok (DescriptorService_Provider v) -> bytes_ok (DescriptorService_Name v) ->
+             zlen (DescriptorService_Provider v) < 256 -> zlen (DescriptorService_Name v) < 256 -> bytes_of_items (enc_service v) = ref_service v) /\
+  (forall v, length (DescriptorShortEvent_Language v) = 3%nat -> bytes_ok (DescriptorShortEvent_Language v) ->
+             bytes_ok (DescriptorShortEvent_EventName v) -> bytes_ok (DescriptorShortEvent_Text v) ->
+             zlen (DescriptorShortEvent_EventName v) < 256 -> zlen (DescriptorShortEvent_Text v) < 256 ->
+             bytes_of_items (enc_short_event v) = ref_short_event v) /\
+  (forall v, Forall (fun it => length (DescriptorParentalRatingItem_CountryCode it) = 3%nat /\ bytes_ok (DescriptorParentalRatingItem_CountryCode it) /\
+                               byte_range (DescriptorParentalRatingItem_Rating it)) (DescriptorParentalRating_Items v) ->
+             bytes_of_items (enc_parental_rating v) = ref_parental_rating v) /\
+  (forall v, Forall (fun it => length (DescriptorSubtitlingItem_Language it) = 3%nat /\ bytes_ok (DescriptorSubtitlingItem_Language it) /\
+                               byte_range (DescriptorSubtitlingItem_Type it)) (DescriptorSubtitling_Items v) ->
+             bytes_of_items (enc_subtitling v) = ref_subtitling v) /\
+  (forall v, Forall (fun it => 0 <= DescriptorContentItem_ContentNibbleLevel1 it < 16 /\ 0 <= DescriptorContentItem_ContentNibbleLevel2 it < 16 /\
+                               byte_range (DescriptorContentItem_UserByte it)) (DescriptorContent_Items v) ->
+             bytes_of_items (enc_content v) = ref_content v).
+Proof.
+  repeat split.
+  - exact write_stream_identifier. - exact write_data_stream_alignment. - exact write_registration.
+  - exact write_private_data_indicator. - exact write_private_data_specifier. - exact write_iso639.
+  - exact write_network_name. - exact write_unknown. - exact write_service. - exact write_short_event.
+  - exact write_parental_rating. - exact write_subtitling. - exact write_content.
+Qed.
+Print Assumptions C14_write_bodies.
